@@ -75,7 +75,7 @@ def run_kv(ctx, mode, nprog, nsteps, nkeys=24, extra_args=None, sig_fn=None, nee
     ctx.extra["calls_by_kind"] = calls
     ctx.extra["option_rows"] = sorted(set(s["row"] for s in sums))[:40]
     ctx.extra["programs"] = len(sums)
-    incomplete = [s for s in sums if s.get("hung") or s.get("panicked")]
+    incomplete = [s for s in sums if s.get("hung") or s.get("panicked") or s.get("stopped")]
     if not incomplete and any(comp.get(k, 0) == 0 for k in need_comp):
         raise HarnessError("drivers did not reach every compaction kind: %s" % comp)
     pending = sums
